@@ -33,11 +33,13 @@ ASSUMPTIONS = ["the universal domain is non-empty (as the property states)", "no
 
 def plan(tier, seed):
     n = 500 if tier == "quick" else 3500
-    return [{"n": n, "sub": i} for i in range(16)]
+    specs_ = [{"n": n, "sub": i} for i in range(16)]
+    specs_ += [{"kind": "ix", "n": 40 if tier == "quick" else 400, "sub": 900 + i} for i in range(16)]
+    return specs_
 
 
 def floors(tier):
-    return {"distinct_nontrivial": 200, "re:ForAll(@.*)?\\.enter": 1000, "cls:U>=2": 1000, "cls:cond:compound": 500,
+    return {"cls:feature_interaction_query": 300, "distinct_nontrivial": 200, "re:ForAll(@.*)?\\.enter": 1000, "cls:U>=2": 1000, "cls:cond:compound": 500,
             "cls:cond:or": 200, "cls:cond:and": 200, "cls:cond:not": 100, "cls:mentions:both": 300,
             "cls:mentions:universal_only": 30, "cls:mentions:free_only": 30, "cls:extra:first": 100,
             "cls:extra:second": 100, "cls:u_expr": 100, "cls:u_restricted_entity": 300, "cls:free_variable_not_selected": 300, "cls:u_scalar_attribute_with_zero": 200, "cls:u_correlated_subquery": 300, "cls:u_flatten_of_plain_numbers": 200, "cls:caching_off": 200, "cls:nfree=2": 200, "cls:nfree=3": 50}
@@ -131,6 +133,11 @@ def _shift(c, by):
 
 
 def cases(spec, ctx):
+    if spec.get("kind") == "ix":
+        from .. import ix
+        for i in range(spec["n"]):
+            yield {"ix": ix.gen_case_for(ctx.rng(spec["sub"], i), ID)}
+        return
     for i in range(spec["n"]):
         yield gen_case(ctx.rng(spec["sub"], i))
 
@@ -290,6 +297,9 @@ def check_flatprim_case(case, ctx):
 
 
 def check_case(case, ctx):
+    if "ix" in case:
+        from .. import ix
+        return ix.check(case["ix"], ctx)
     if case.get("flatprim"):
         return check_flatprim_case(case, ctx)
     if case.get("corr"):
@@ -348,6 +358,8 @@ def check_case(case, ctx):
 
 
 def classify(f, ctx):
+    if "ix" in f.get("case", {}):
+        return None
     case = f["case"]
     if case.get("flatprim"):
         return None
